@@ -506,8 +506,14 @@ package interpreter
 //@   strict
 //@ func builtinRemove
 //@   strict
+// object iteration order (C01: the outcome is a function of the program text and its inputs only - not of Go's random map
+// order): keys() and `for k, v in obj` walk an object in ascending key order
+//@ func sortedKeys
+//@   ensures forall(i, 0, len(result) - 1, !strlt(result[i+1], result[i]))
 //@ func builtinKeys
 //@   strict
+//@   ensures err == nil ==> typeis(result, []interface{}) && forall(i, 0, len(result.([]interface{})) - 1, typeis(result.([]interface{})[i], string) && typeis(result.([]interface{})[i+1], string) && !strlt(result.([]interface{})[i+1].(string), result.([]interface{})[i].(string)))
+//@   loop 1 invariant 0 <= rangeidx && len(keys) == rangeidx && forall(j, 0, rangeidx, typeis(keys[j], string) && keys[j].(string) == names[j]) && forall(i, 0, len(names) - 1, !strlt(names[i+1], names[i]))
 //@ func builtinMap
 //@   strict
 //@   ensures result1 == nil && typeis(result, []interface{}) ==> len(result.([]interface{})) == 0 || fresh(base(result.([]interface{})))
